@@ -82,6 +82,18 @@ func checkWorld(r *seq.Run, w *world, seqn []op) {
 				r.Violation("", "probe-goctx/"+o.origin, fmt.Sprintf("%s: hook of value %d (%s) read Go context c%d through GetCtx, the logger was given c%d", desc(), i, o.origin, got, o.m.GoCtx), desc())
 			}
 		}
+		// the level of the derivation path: a debug event is written exactly when the model says so (a branch
+		// that went through Level(Info) filters it, its siblings and its parent do not)
+		{
+			w.lines = [2][][]byte{}
+			w.w.Log.Calls, w.w.Log.Ctxs = nil, nil
+			lg.Debug().Msg("lvl")
+			exd := seqx.ExpectEvent(o.m, seqx.Entry{Kind: "Debug"}, nil, seqx.Final{Kind: "Msg", Text: "lvl"})
+			n := len(w.lines[0]) + len(w.lines[1])
+			if (n == 1) != exd.Written || n > 1 {
+				r.Violation("", "probe-level", fmt.Sprintf("%s: debug event of value %d (%s): %d lines written, the derivation path's level is %v (written expected: %v)", desc(), i, o.origin, n, o.m.Level, exd.Written), desc())
+			}
+		}
 		// marshalers reached through helpers that are not tied to a logger must see the background context
 		var seen []contextRec
 		w.seen = nil
